@@ -25,6 +25,12 @@ for c in p.crates:
     for a in c.adts:
         if a.get("kind") == "Struct" and a.get("variants"):
             adt_fields[a["key"]] = [[f["name"], f["ty"]] for f in a["variants"][0].get("fields", [])]
+adts_shape = {}
+for c in p.crates:
+    if c.is_test:
+        continue
+    for a in c.adts:
+        adts_shape[a["key"]] = [a.get("kind", ""), [[v.get("name", "")] + [f["name"] for f in v.get("fields", [])] for v in a.get("variants", [])]]
 impls = {}
 for c in p.crates:
     if c.is_test:
@@ -40,7 +46,7 @@ for k, b in sorted(p.lib_bodies.items()):
             instrumented.append(k)
 json.dump({"_comment": "functions and constants present on the pinned tree (pretty def paths, generics stripped); signatures, struct fields and "
                        "which async fns are #[instrument]ed, used to undo pure renamings (pv/canon.py)",
-           "impls": impls,
+           "impls": impls, "adts": adts_shape,
            "closures": sorted(k for k, b in p.lib_bodies.items() if b.kind == "Closure"),
            "fns": fns, "consts": consts, "sigs": sigs, "adt_fields": adt_fields, "async_fns": async_fns, "instrumented": instrumented},
           open(os.path.join(os.path.dirname(os.path.dirname(os.path.abspath(__file__))), "spec", "pinned.json"), "w"), indent=0)
